@@ -78,6 +78,11 @@ func covered(fn *ssa.Function, w mustState, l Loc, depth int) bool {
 		return false
 	}
 	t = derefAll(t)
+	// an array written piecewise by constant ranges (copy(a[:16], x); copy(a[16:], y)) is covered
+	// when the ranges and the constant indices written leave no gap
+	if arr, ok := t.Underlying().(*types.Array); ok && rangesCover(w, l, arr.Len()) {
+		return true
+	}
 	kids := childrenOf(t)
 	if len(kids) == 0 {
 		return false
@@ -217,6 +222,8 @@ func (e *Effects) analyseMust(fn *ssa.Function) *MustSummary {
 							}
 						} else if arr := fullArrayCopy(cc.Args[1], cc.Args[2]); arr != nil {
 							addWrite(w, r.addrLocs(arr))
+						} else if locs, lo, hi, ok := constRangeLocs(r, cc.Args[1], 0); ok {
+							addRange(w, locs, lo, hi)
 						}
 					}
 					continue
@@ -229,6 +236,8 @@ func (e *Effects) analyseMust(fn *ssa.Function) *MustSummary {
 						}
 						if arr := fullArrayCopy(cc.Args[0], cc.Args[1]); arr != nil {
 							addWrite(w, r.addrLocs(arr))
+						} else if locs, lo, hi, ok := constRangeLocs(r, cc.Args[0], 0); ok && holdsAtLeast(cc.Args[1], hi-lo) {
+							addRange(w, locs, lo, hi)
 						}
 					case "append":
 						if len(cc.Args) == 2 {
@@ -570,4 +579,156 @@ func fullArrayCopy(dst, src ssa.Value) ssa.Value {
 		}
 	}
 	return nil
+}
+
+// addRange records the definite write of arr[lo:hi] (constant bounds) as a pseudo path element.
+func addRange(w mustState, locs []Loc, lo, hi int64) {
+	if len(locs) == 1 && locs[0].Root >= 0 && definitePath(locs[0].Path) && lo < hi {
+		w[Loc{locs[0].Root, locs[0].Path + "[" + itoa(lo) + ":" + itoa(hi) + "]"}] = true
+	}
+}
+
+// rangesCover: do the constant ranges and constant indices recorded for the array at l leave no
+// gap in [0, n)?
+func rangesCover(w mustState, l Loc, n int64) bool {
+	type iv struct{ lo, hi int64 }
+	var ivs []iv
+	for x := range w {
+		if x.Root != l.Root || !strings.HasPrefix(x.Path, l.Path+"[") {
+			continue
+		}
+		rest := x.Path[len(l.Path):]
+		if !strings.HasSuffix(rest, "]") || strings.Count(rest, "[") != 1 || strings.Contains(rest, ".") {
+			continue
+		}
+		body := rest[1 : len(rest)-1]
+		if i := strings.Index(body, ":"); i >= 0 {
+			lo, e1 := strconv.ParseInt(body[:i], 10, 64)
+			hi, e2 := strconv.ParseInt(body[i+1:], 10, 64)
+			if e1 == nil && e2 == nil {
+				ivs = append(ivs, iv{lo, hi})
+			}
+		} else if k, err := strconv.ParseInt(body, 10, 64); err == nil {
+			ivs = append(ivs, iv{k, k + 1})
+		}
+	}
+	if len(ivs) == 0 {
+		return false
+	}
+	sort.Slice(ivs, func(i, j int) bool { return ivs[i].lo < ivs[j].lo })
+	end := int64(0)
+	for _, x := range ivs {
+		if x.lo > end {
+			return false
+		}
+		if x.hi > end {
+			end = x.hi
+		}
+	}
+	return end >= n
+}
+
+// constRangeLocs: v is arr[lo:hi] for a pointer-to-array arr and constant (or absent) bounds, or
+// the result of a function of the module every return of which is such a slice of an array
+// reached from one of its parameters (an accessor `func (k *Key) scalar() []byte { return
+// k.secret[:32] }`): the locations of the array, in terms of the function r describes, and the range.
+func constRangeLocs(r *fnResolver, v ssa.Value, depth int) (locs []Loc, lo, hi int64, ok bool) {
+	switch x := v.(type) {
+	case *ssa.Slice:
+		pt, isPtr := x.X.Type().Underlying().(*types.Pointer)
+		if !isPtr || x.Max != nil {
+			return nil, 0, 0, false
+		}
+		arr, isArr := pt.Elem().Underlying().(*types.Array)
+		if !isArr {
+			return nil, 0, 0, false
+		}
+		lo, hi = 0, arr.Len()
+		if x.Low != nil {
+			k, isC := constInt(x.Low)
+			if !isC {
+				return nil, 0, 0, false
+			}
+			lo = k
+		}
+		if x.High != nil {
+			k, isC := constInt(x.High)
+			if !isC {
+				return nil, 0, 0, false
+			}
+			hi = k
+		}
+		if lo < 0 || hi > arr.Len() || lo >= hi {
+			return nil, 0, 0, false
+		}
+		return r.addrLocs(x.X), lo, hi, true
+	case *ssa.Call:
+		f := x.Call.StaticCallee()
+		if depth > 2 || f == nil || f.Blocks == nil || !strings.HasPrefix(fnPkgPath(f), modPath) || f.Signature.Results().Len() != 1 {
+			return nil, 0, 0, false
+		}
+		if _, isClosure := x.Call.Value.(*ssa.MakeClosure); isClosure {
+			return nil, 0, 0, false
+		}
+		cr := newResolver(f)
+		first := true
+		for _, b := range f.Blocks {
+			ret, isRet := b.Instrs[len(b.Instrs)-1].(*ssa.Return)
+			if !isRet || b.Comment == "recover" {
+				continue
+			}
+			cl, l2, h2, ok2 := constRangeLocs(cr, ret.Results[0], depth+1)
+			if !ok2 || len(cl) != 1 || cl[0].Root < 0 || cl[0].Root >= len(x.Call.Args) {
+				return nil, 0, 0, false
+			}
+			m := r.locs(x.Call.Args[cl[0].Root], cl[0].Path)
+			if len(m) != 1 {
+				return nil, 0, 0, false
+			}
+			if first {
+				locs, lo, hi, first = m, l2, h2, false
+			} else if locs[0] != m[0] || lo != l2 || hi != h2 {
+				return nil, 0, 0, false
+			}
+		}
+		return locs, lo, hi, !first
+	}
+	return nil, 0, 0, false
+}
+
+// holdsAtLeast: src provably has at least n elements (constant-bound slice, full slice of an
+// array, string constant).
+func holdsAtLeast(src ssa.Value, n int64) bool {
+	switch s := src.(type) {
+	case *ssa.Slice:
+		if spt, ok := s.X.Type().Underlying().(*types.Pointer); ok {
+			if sa, ok := spt.Elem().Underlying().(*types.Array); ok {
+				lo, hi := int64(0), sa.Len()
+				if s.Low != nil {
+					k, isC := constInt(s.Low)
+					if !isC {
+						return false
+					}
+					lo = k
+				}
+				if s.High != nil {
+					k, isC := constInt(s.High)
+					if !isC {
+						return false
+					}
+					hi = k
+				}
+				return hi-lo >= n
+			}
+		}
+		if s.High != nil {
+			hi, ok1 := constInt(s.High)
+			lo, ok2 := int64(0), true
+			if s.Low != nil {
+				lo, ok2 = constInt(s.Low)
+			}
+			return ok1 && ok2 && hi-lo >= n
+		}
+	}
+	return false
 }
